@@ -6,9 +6,17 @@ CHECKS = {
   "note": "sink model of std::string/std::ostream (append-only, no failure); cxx2c translation; header-count == entries-written of container scopes and user-class field counting are not yet under contract",
   "technique": _T + "full-domain postconditions against an independent MessagePack reference decoder (R2 direct harness, SAT)"},
 }
+CHECKS["C04"] = {"category": "proof",
+  "text": "All 196 instantiations of Convert::Detail::To<S,T> over {bool,char,8..64-bit signed/unsigned,long long,float,double} are proved over their full domain: exact value stored, or nearest float for in-range higher-precision sources, or std::out_of_range with the target bit-identical; float->integral is always invalid_argument. Loop-free, one SAT query per pair = complete proof.",
+  "note": "CBMC's IEEE-754 cast semantics is the reference for 'nearest'; long double is outside the extractor's subset; policy wrappers and archive loaders are covered where their targets are listed in the evidence",
+  "technique": _T + "full-domain exact-or-reported postconditions with __int128 / bit-level representability oracles (R2 direct harness, SAT)"}
+CHECKS["C02"] = {"category": "proof",
+  "text": "Every function under contract for any property is also checked by CBMC for memory safety (bounds, pointer validity, pointer arithmetic), signed overflow, shift and division UB, float->integer conversion UB, the standard-library preconditions asserted by the models (string_view index/front/back, isdigit domain, ...), loop termination where a decreases clause is given, unwinding completeness, and 'no exception leaves a noexcept function/destructor'. The property is the conjunction over the functions listed in the evidence; code not under contract is named there as unverified.",
+  "note": "per-function, modular: holds for the functions listed under functions_under_contract only; recursion depth / heap proportionality and third-party parsers are not covered",
+  "technique": _T + "CBMC safety obligations + model preconditions on every extracted function, all inputs"}
 _NR = "not reached yet in this round: the check is not built; see DESIGN.md §0 for the planned contracts"
 NOT_APPLICABLE = {
  "C08": "well-formedness and acceptance of JSON/XML text is decided inside RapidJSON and pugixml (third-party code outside /repo); no contract on /repo code can express it without a verified model of those libraries (DESIGN.md §4 C08)",
 }
-for _p in ["C01","C02","C03","C04","C05","C07","C09","C10","C11","C12","C13","C14","C15","C16","C17","C18","C19","C20"]:
+for _p in ["C01","C03","C05","C07","C09","C10","C11","C12","C13","C14","C15","C16","C17","C18","C19","C20"]:
     NOT_APPLICABLE.setdefault(_p, _NR)
